@@ -423,3 +423,38 @@ def like_flow(ctx, ents, goal, goal_param="like"):
                 st = prev
             out[e] = list(reversed(path))
     return out
+
+
+def rule_t2(ctx):
+    r = ctx.r
+    r.rule("T2", "check_type never derives the dtype from the VALUE of a "
+                 "`like` argument (np.asarray(like).dtype, "
+                 "np.result_type(like), ...): a Python int or a list of "
+                 "ints would yield an integer dtype, whereas real numeric "
+                 "input must yield floating-point data; only like.dtype "
+                 "(an existing array's dtype) may be copied")
+    f = ctx.p.get_function(CORE_REL, "check_type")
+    r.analysed(f)
+    bad = []
+    n = 0
+    for st in ast.walk(f.node):
+        if isinstance(st, ast.Assign) and any(
+                dotted(t) == "dtype" for t in st.targets):
+            n += 1
+            for c in ast.walk(st.value):
+                if isinstance(c, ast.Call) and any(
+                        isinstance(a, ast.Name) and a.id == "like"
+                        for a in c.args):
+                    bad.append((st, c))
+    if not bad:
+        r.ok("T2", "check_type", loc(f, f.node), "",
+             f"{n} assignment(s) to dtype; none computed from the value of "
+             "`like`")
+    for st, c in bad:
+        r.violation(
+            "T2", f"{f.fq}|{norm_stmt(st)}", loc(f, st), norm_stmt(st)[:160],
+            f"`{dotted(c)}` infers the dtype from the value of `like`: a "
+            "Python int (standard_rotation(1), a Coxeter label) or a nested "
+            "list of ints gives int64, the float entries written into the "
+            "array afterwards are truncated and inverse / eigenvalue "
+            "routines fail or return garbage", instance="check_type")
